@@ -279,6 +279,7 @@ var collDefs = []collDef{
 	{kind: "map", kt: "string", vt: "any", lit: `map[string]any{"k": nil}`, n: 1},
 	{kind: "map", kt: "any", vt: "error", lit: `map[any]error{nil: nil}`, n: 1},
 	{kind: "map", kt: "int", vt: "int", lit: `map[int]int(nil)`, n: 0},
+	{kind: "map", kt: "float64", vt: "int", lit: `tr.NaNMap()`, n: 1},
 	{kind: "chan", kt: "int", vt: "", lit: `tr.Chan(3, 4, 5)`, n: 3},
 	{kind: "chan", kt: "string", vt: "", lit: `tr.Chan[string]()`, n: 0},
 	{kind: "int", kt: "int", vt: "", lit: `3`, n: 3},
